@@ -53,6 +53,7 @@ where
         should_continue: impl std::ops::Fn() -> bool + Clone,
     ) -> V;
     fn reached_fixed_point(self, old_value: &V, new_value: &V) -> bool;
+    fn is_same_value(self, old_value: &V, new_value: &V) -> bool;
     fn error_value(self) -> V;
 }
 
@@ -268,6 +269,14 @@ where
                 std::mem::replace(&mut self.search_graph[dfn].solution, current_answer);
 
             if solver_stuff.reached_fixed_point(&old_answer, &self.search_graph[dfn].solution) {
+                if !solver_stuff.is_same_value(&old_answer, &self.search_graph[dfn].solution) {
+                    // We stop iterating although our answer still changed in this
+                    // round (it became ambiguous). The goals below us in the search
+                    // graph were solved against our previous answer, so their results
+                    // are stale: forget them instead of letting them be promoted to
+                    // the cache together with us.
+                    self.search_graph.rollback_to(dfn + 1);
+                }
                 return *minimums;
             }
 
